@@ -1392,7 +1392,9 @@ ldb_versions_apply(ldb_versions_t *vset, ldb_edit_t *edit, ldb_mutex_t *mu) {
 }
 
 static int
-ldb_versions_reuse_manifest(ldb_versions_t *vset, const char *dscname) {
+ldb_versions_reuse_manifest(ldb_versions_t *vset,
+                            const char *dscname,
+                            uint64_t valid_size) {
   ldb_filetype_t manifest_type;
   uint64_t manifest_number;
   uint64_t manifest_size;
@@ -1408,7 +1410,9 @@ ldb_versions_reuse_manifest(ldb_versions_t *vset, const char *dscname) {
       manifest_type != LDB_FILE_DESC ||
       ldb_file_size(dscname, &manifest_size) != LDB_OK ||
       /* Make new compacted MANIFEST if old one is too big. */
-      manifest_size >= target_file_size(vset->options)) {
+      manifest_size >= target_file_size(vset->options) ||
+      /* Do not append after a torn record left by a crash. */
+      manifest_size != valid_size) {
     return 0;
   }
 
@@ -1489,6 +1493,7 @@ ldb_versions_recover(ldb_versions_t *vset, int *save_manifest) {
   int have_prev_log_number = 0;
   int have_next_file = 0;
   int have_last_sequence = 0;
+  uint64_t valid_size = 0;
   uint64_t next_file = 0;
   uint64_t last_sequence = 0;
   uint64_t log_number = 0;
@@ -1534,6 +1539,9 @@ ldb_versions_recover(ldb_versions_t *vset, int *save_manifest) {
 
     while (ldb_reader_read_record(&reader, &record, &buf) && rc == LDB_OK) {
       ++read_records;
+
+      /* Offset just past the last complete record. */
+      valid_size = reader.end_offset - reader.buffer.size;
 
       /* Calls ldb_edit_reset() internally. */
       if (!ldb_edit_import(&edit, &record))
@@ -1609,7 +1617,7 @@ ldb_versions_recover(ldb_versions_t *vset, int *save_manifest) {
     vset->prev_log_number = prev_log_number;
 
     /* See if we can reuse the existing MANIFEST file. */
-    if (ldb_versions_reuse_manifest(vset, fname)) {
+    if (ldb_versions_reuse_manifest(vset, fname, valid_size)) {
       /* No need to save new manifest. */
     } else {
       *save_manifest = 1;
